@@ -203,6 +203,59 @@ def _func_calls_in_do(f):
     return [c for c in calls_in(f.node) if isinstance(c.func, ast.Name) and c.func.id == fname]
 
 
+def _func_escapes(fnode, fname):
+    """calls that hand the bound command function on as an argument (`self._call_with(func, argument)`)"""
+    return [c for c in calls_in(fnode) if any(isinstance(a, ast.Name) and a.id == fname for a in list(c.args) + [k.value for k in c.keywords])]
+
+
+def _command_units(m):
+    """Command.do and the helper methods of Command the bound function is handed to: [(FuncInfo, local name of the function)]"""
+    g = _command_do(m)
+    fname = None
+    for n in body_walk(g.node):
+        if isinstance(n, ast.Assign) and isinstance(n.targets[0], ast.Name) and '__get__' in src(n.value):
+            fname = n.targets[0].id
+    if fname is None:
+        raise AnchorMissing('bound command function (self.__get__(module_obj)) not found in Command.do')
+    units, todo, seen = [], [(g, fname)], set()
+    while todo:
+        f, name = todo.pop()
+        if f.qualname in seen:
+            continue
+        seen.add(f.qualname)
+        units.append((f, name))
+        for c in _func_escapes(f.node, name):
+            if isinstance(c.func, ast.Attribute) and dotted(c.func.value) == 'self':
+                h = m.method(roles.COMMAND, c.func.attr)
+                if h is not None:
+                    params = [a.arg for a in h.node.args.args][1:]
+                    for i, a in enumerate(c.args):
+                        if isinstance(a, ast.Name) and a.id == name and i < len(params):
+                            todo.append((h, params[i]))
+    return units
+
+
+def _validated(rd, use_node, expr, depth=6):
+    """every value `expr` may denote at use_node is the result of a validate(...) call, an empty container / a constant, or
+    a tuple / list / dict built from such values (`args, kwds = (argument,), {}`)"""
+    if depth == 0:
+        return False
+    if isinstance(expr, ast.Starred):
+        expr = expr.value
+    if isinstance(expr, ast.Name):
+        defs = rd.at(use_node, expr.id)
+        return bool(defs) and all(how == 'assign' and v is not None and _validated(rd, st, v, depth - 1) for v, st, how in defs)
+    if isinstance(expr, ast.IfExp):
+        return _validated(rd, use_node, expr.body, depth) and _validated(rd, use_node, expr.orelse, depth)
+    if isinstance(expr, (ast.Tuple, ast.List)):
+        return all(_validated(rd, use_node, e, depth) for e in expr.elts)
+    if isinstance(expr, ast.Dict):
+        return all(k is not None for k in expr.keys) and all(_validated(rd, use_node, v, depth) for v in expr.values)
+    if isinstance(expr, ast.Constant):
+        return True
+    return is_method_call(expr, {'validate'}, rd, use_node)
+
+
 @rule('C04.R2', min_instances=3)
 def validated_value_is_used(ctx):
     """flow-sensitive: the argument of the driver call / command function is the result of `.validate(`"""
@@ -222,18 +275,24 @@ def validated_value_is_used(ctx):
     ctx.analysed(g)
     cfgg = CFG(g.node, m, g.module)
     rdg = ReachingDefs(cfgg, g.node)
-    for c in _func_calls_in_do(g):
-        if not c.args and not c.keywords:
-            continue
-        a = c.args[0] if c.args else c.keywords[0].value
-        if isinstance(a, ast.Starred):
-            a = a.value
-        o = rdg.origins_at(c, a)
-        ok = bool(o) and all(is_method_call(x, {'validate'}, rdg, c) for x in o)
-        ctx.check(ok, f'{g.qualname}:command function gets the validated argument', c,
-                  'argument = result of validate(...)',
-                  f'the command function is called with {[src(x) for x in o]}: the merely imported value, not the '
-                  'result of validate (validate result discarded) - e.g. 10.0000001 reaches a FloatRange(0, 10) command unclamped', g)
+    for g, fname in _command_units(m):
+        ctx.analysed(g)
+        cfgg = CFG(g.node, m, g.module)
+        rdg = ReachingDefs(cfgg, g.node)
+        own = {a.arg for a in g.node.args.args}
+        for c in [c for c in calls_in(g.node) if isinstance(c.func, ast.Name) and c.func.id == fname] + _func_escapes(g.node, fname):
+            handed = [a for a in list(c.args) + [k.value for k in c.keywords] if not (isinstance(a, ast.Name) and a.id in (fname, 'self'))]
+            if not handed:
+                continue
+            direct = isinstance(c.func, ast.Name) and c.func.id == fname
+            if not direct and isinstance(c.func, ast.Attribute) and dotted(c.func.value) == 'self' and m.method(roles.COMMAND, c.func.attr) is not None:
+                continue        # handed to a helper of the command: judged there
+            ok = all(_validated(rdg, c, a) for a in handed)
+            o = [x for a in handed for x in rdg.origins_at(c, a.value if isinstance(a, ast.Starred) else a)]
+            ctx.check(ok, f'{g.qualname}:command function gets the validated argument', c,
+                      'argument = result of validate(...)',
+                      f'the command function is called with {[src(x) for x in o]}: the merely imported value, not the '
+                      'result of validate (validate result discarded) - e.g. 10.0000001 reaches a FloatRange(0, 10) command unclamped', g)
     ww = roles.write_wrapper(m)
     ctx.analysed(ww)
     cfgw = CFG(ww.node, m, ww.module)
@@ -259,15 +318,15 @@ def exactly_one_driver_call(ctx):
               'a normal path performs no or more than one driver write', f)
     g = _command_do(m)
     cfgg = CFG(g.node, m, g.module)
-    ids = {i for c in _func_calls_in_do(g) for i in cfgg.node_of(c)}
+    ids = {i for c in _func_calls_in_do(g) + _func_escapes(g.node, _command_units(m)[0][1]) for i in cfgg.node_of(c)}
     ok1 = cfgg.all_paths_pass([cfgg.entry], [cfgg.exit], ids, exc=False)
     ok2 = not any(cfgg.reach([i]) & ids for i in ids)
     ctx.check(ok1 and ok2, f'{g.qualname}:exactly one command call', g.node, 'one function call on every normal path',
               'a normal path calls the command function not exactly once', g)
-    # argument presence check
-    tests = [src(n.test) for n in body_walk(g.node) if isinstance(n, ast.If) and n.body and isinstance(n.body[0], ast.Raise)]
-    ctx.check(any(t.endswith('is None') for t in tests) and any(t.endswith('is not None') for t in tests),
-              f'{g.qualname}:argument presence checked', g.node, 'missing and superfluous arguments are refused',
+    # argument presence check (decided by C04.R2b's walk with the two conditions fixed)
+    p = g.node.args.args[2].arg if len(g.node.args.args) > 2 else 'argument'
+    refused = all(not (ids & reach_under(cfgg, g.node, {'self.argument': has, f'{p} is None': none}, exc=False)) for has, none in ((True, True), (False, False)))
+    ctx.check(refused, f'{g.qualname}:argument presence checked', g.node, 'missing and superfluous arguments are refused',
               'a missing or superfluous command argument is not refused', g)
 
 
@@ -436,42 +495,56 @@ def nan_payload_is_refused(ctx):
 @rule('C04.R2b', min_instances=3)
 def command_argument_presence_is_enforced(ctx):
     """Command.do: a command with an argument type refuses a request without data, a command without one refuses a request
-    with data (WrongTypeError), and the function is called with arguments exactly on the has-argument side - decided with
-    the polarity of every test (a negated test would refuse every legitimate request and run the others)"""
+    with data (WrongTypeError), and the function is called in the two legitimate situations.  Decided by walking the method
+    four times with the two conditions fixed (`self.argument` set or not, `<argument> is None` or not): tests these decide
+    are followed on one side only, everything else on both - whatever the tests look like (nested, guard clauses, negated)"""
     m = ctx.m
     f = m.method(roles.COMMAND, 'do', inherited=False)
     ctx.analysed(f)
     cfg = CFG(f.node, m, f.module)
     p = f.node.args.args[2].arg if len(f.node.args.args) > 2 else 'argument'
-    has = [t for t in cfg.nodes if t.kind == 'test' and _polarity(t.ast)[0] == 'self.argument']
-    if not has:
-        raise AnchorMissing('test of self.argument not found in Command.do')
-    t = has[0]
-    neg = _polarity(t.ast)[1]
-    with_side = cfg.reach([t.id], labels={'F' if neg else 'T'}, avoid=[t.id])
-    without_side = cfg.reach([t.id], labels={'T' if neg else 'F'}, avoid=[t.id])
-    calls = [c for c in calls_in(f.node) if isinstance(c.func, ast.Name) and c.func.id == 'func']
-    for c in calls:
-        ids = set(cfg.node_of(c))
-        takes = bool(c.args or c.keywords)
-        right, wrong = (with_side, without_side) if takes else (without_side, with_side)
-        ctx.check(ids <= right and not (ids & wrong - right), f'{f.qualname}:`{src(c)}` on the right side of the argument test', c,
-                  'called with arguments iff the command has an argument type',
-                  f'`{src(c)}` is reached on the side where the command has {"no " if takes else "an "}argument type', f)
-    n = 0
-    for u in cfg.nodes:
-        if u.kind != 'test':
-            continue
-        core, uneg = _polarity(u.ast)
-        if core != f'{p} is None':
-            continue
-        n += 1
-        in_with = u.id in with_side and u.id not in without_side
-        # refuse when (has argument type and argument is None) or (no argument type and argument is not None)
-        refuse_true = (not uneg) if in_with else uneg
-        ctx.check(side_never_completes(cfg, u.id, 'T' if refuse_true else 'F'), f'{f.qualname}:{"missing" if in_with else "superfluous"} argument is refused', u.ast,
-                  f'`{src(u.ast)}`: the refusing side raises',
-                  f'`{src(u.ast)}`: a request {"without data for a command that needs an argument" if in_with else "with data for a command without argument"} '
-                  'is not refused (and the legitimate form is)', f)
-    if n < 2:
-        ctx.bad(f'{f.qualname}:argument presence is tested', f.node, f'only {n} tests of `{p} is None`: a missing or a superfluous argument is not refused', f)
+    fname = _command_units(m)[0][1]
+    calls = _func_calls_in_do(f)
+    escapes = _func_escapes(f.node, fname)
+    if not calls and not escapes:
+        raise AnchorMissing('call of the bound command function not found in Command.do')
+    mentions = [t for t in cfg.nodes if t.kind == 'test' and not isinstance(t.ast, ast.stmt) and 'self.argument' in src(resolved(t.ast, f.node))]
+    if not mentions:
+        raise AnchorMissing('test of self.argument not found in Command.do', violation=f'{f.qualname}:missing argument is refused')
+    ids = {i for c in calls + escapes for i in cfg.node_of(c)}
+    for has, none, key, good, bad in (
+            (True, True, 'missing argument is refused', False, 'a request without data for a command that needs an argument reaches the command function'),
+            (False, False, 'superfluous argument is refused', False, 'a request with data (any data: 0, false, "", [] and {} are data) for a command '
+                                                                     'without argument reaches the command function'),
+            (True, False, 'command with argument is served', True, 'a request with data for a command that takes an argument never reaches the command function'),
+            (False, True, 'command without argument is served', True, 'a request without data for a command without argument never reaches the command function')):
+        env = {'self.argument': has, f'{p} is None': none}
+        reached = reach_under(cfg, f.node, env, exc=False)
+        hit = sorted(ids & reached)
+        ctx.check(bool(hit) == good, f'{f.qualname}:{key}', cfg.nodes[hit[0]].ast if hit else f.node,
+                  f'with self.argument {"set" if has else "not set"} and `{p}` {"None" if none else "not None"}: the call is '
+                  f'{"reached" if good else "not reachable"}', bad, f)
+        if good and hit:
+            # what is handed over on that walk
+            for c in calls:
+                if not (set(cfg.node_of(c)) & reached):
+                    continue
+                takes = bool(c.args or c.keywords)
+                if has and not takes:
+                    ctx.bad(f'{f.qualname}:`{src(c)}` on the right side of the argument test', c,
+                            f'`{src(c)}` is reached for a command that has an argument type: the function is called without the argument', f)
+                elif not has and takes and not all(_may_be_empty(a, c, cfg, f) for a in list(c.args) + [k.value for k in c.keywords]):
+                    ctx.bad(f'{f.qualname}:`{src(c)}` on the right side of the argument test', c,
+                            f'`{src(c)}` is reached for a command without argument type and hands something over', f)
+                else:
+                    ctx.ok(f'{f.qualname}:`{src(c)}` on the right side of the argument test', c, 'called with arguments iff the command has an argument type', f)
+
+
+def _may_be_empty(a, call, cfg, f):
+    """an argument of the form *name / **name whose reaching definitions include an empty tuple / dict"""
+    if isinstance(a, ast.Starred):
+        a = a.value
+    if not isinstance(a, ast.Name):
+        return False
+    rd = ReachingDefs(cfg, f.node)
+    return any(isinstance(v, (ast.Tuple, ast.Dict, ast.List)) and not (getattr(v, 'elts', None) or getattr(v, 'keys', None)) for v, st, how in rd.at(call, a.id))
